@@ -168,6 +168,7 @@ impl Prop for C06 {
             buffered,
             gate_calls: vec![],
             trace: rng.chance(1, 8),
+            via_builder: None,
             inbound,
             reads,
             writes,
